@@ -62,6 +62,12 @@ func genHugeSpec(r *Rng) (TrieSpec, string) {
 	if r.Chance(0.7) {
 		s.Opt[2] = 1 // leaf prefixes present
 	}
+	if r.Chance(0.5) {
+		// unique tails behind the branching digits: every leaf stores a prefix
+		for i, k := range s.Keys {
+			s.Keys[i] = append(k, []byte(fmt.Sprintf("/t%x", (i*2654435761)&0xfff))...)
+		}
+	}
 	if r.Chance(0.75) {
 		s.ValIDs = make([]int64, len(s.Keys))
 		for i := range s.ValIDs {
@@ -187,10 +193,30 @@ func genC11(r *Rng, tier string) *C11Scn {
 		nq = 300 // more distinct nodes visited than any small cache holds
 	}
 	qs := genQueries(r, keys, nq)
+	hot := len(keys) >= 8 && ((huge && r.Chance(0.6)) || (hammer && r.Chance(0.3)) || r.Chance(0.04))
+	if hot {
+		// skewed workload: a handful of hot INDEXED keys whose ordinals collide
+		// modulo powers of two, queried again and again by every task (hits,
+		// evictions and refills of the same few cache slots), plus a few other
+		// queries. Short tasks of cheap units.
+		base := r.Intn(len(keys))
+		var hotq [][]byte
+		for _, d := range []int{0, 1 << uint(r.PickI(6, 8, 10, 10, 12)), 2 << uint(r.PickI(6, 8, 10, 10)), 3 << 10, 1} {
+			if i := (base + d) % len(keys); i >= 0 {
+				hotq = append(hotq, keys[i])
+			}
+		}
+		for len(hotq) < 24 {
+			hotq = append(hotq, hotq[r.Intn(3)]) // weight towards the first three
+		}
+		qs = append(hotq, qs[:4]...)
+		lim.maxTasks, lim.maxUnits = r.PickI(3, 3, 4), r.PickI(6, 12, 30)
+		mix.Heavy, mix.Small = false, false
+	}
 	nt := r.Range(2, lim.maxTasks)
 	for i := 0; i < nt; i++ {
 		nu := r.Range(1, lim.maxUnits)
-		if hammer {
+		if hammer && !hot {
 			nu = r.Range(lim.maxUnits/2, lim.maxUnits)
 		}
 		ts := TaskSpec{}
